@@ -209,6 +209,17 @@ def _std_model(ex, c, args, guard, site):
                 t = z3.If(top.t >= 128, t - (1 << w), t)
                 return IV(t, ty, lo, hi), T
             return IV(t, ty, l, h), T
+    m = re.match(r'^(?:core::)?char::methods::<impl char>::(is_ascii_digit|is_ascii|is_ascii_alphabetic|is_ascii_uppercase|is_ascii_lowercase|is_ascii_alphanumeric|is_ascii_whitespace)$', cs)
+    if m:
+        a = ex.deref(args[0]); fn = m.group(1)
+        rng = {'is_ascii_digit': [(48, 57)], 'is_ascii': [(0, 127)], 'is_ascii_alphabetic': [(65, 90), (97, 122)], 'is_ascii_uppercase': [(65, 90)], 'is_ascii_lowercase': [(97, 122)],
+               'is_ascii_alphanumeric': [(48, 57), (65, 90), (97, 122)], 'is_ascii_whitespace': [(9, 10), (12, 13), (32, 32)]}[fn]
+        return bv_of(zor(*[z3.And(a.t >= lo, a.t <= hi) for lo, hi in rng])), T
+    m = re.match(r'^<(%s) as Ord>::(min|max)$' % INT, cs) or re.match(r'^std::cmp::Ord::(min|max)$', cs)
+    if m and len(args) == 2 and isinstance(args[0], IV):
+        a, b = args; fn = m.groups()[-1]
+        if fn == 'min': return IV(z3.If(a.t <= b.t, a.t, b.t), a.ty, min(a.lo, b.lo), min(a.hi, b.hi)), T
+        return IV(z3.If(a.t >= b.t, a.t, b.t), a.ty, max(a.lo, b.lo), max(a.hi, b.hi)), T
     # ---- conversions
     m = re.match(r'^<(%s) as TryInto<(%s)>>::try_into$' % (INT, INT), cs) or re.match(r'^<(%s) as TryFrom<(%s)>>::try_from$' % (INT, INT), cs)
     if m:
